@@ -572,3 +572,39 @@ def fw_along(px, py, qx, qy, heading, g, nx):
 def fw_one_axis(px, py, qx, qy):
     # the two points differ in exactly one coordinate
     return (px == qx and py != qy) or (px != qx and py == qy)
+
+
+def fw_turn(regions, region, ij, forward, left, nx, n):
+    # the turn the walk takes from (ij, forward, left): -1 left, 0 straight, 1 right
+    ijn = ij + forward
+    ijr = ijn - left
+    if forward == 1 or forward == -1:
+        if ij // nx != ijn // nx:
+            return -1
+        if (not (ijr < 0 or ijr >= n)) and regions[ijr] == region:
+            return 1
+        if regions[ijn] == region:
+            return 0
+        return -1
+    if ijn < 0 or ijn >= n:
+        return -1
+    if ijn // nx == ijr // nx and regions[ijr] == region:
+        return 1
+    if regions[ijn] == region:
+        return 0
+    return -1
+
+
+def fw_next_ij(regions, region, ij, forward, left, nx, n):
+    t = fw_turn(regions, region, ij, forward, left, nx, n)
+    return ij + forward if t == 0 else (ij if t == -1 else ij + forward - left)
+
+
+def fw_next_fw(regions, region, ij, forward, left, nx, n):
+    t = fw_turn(regions, region, ij, forward, left, nx, n)
+    return forward if t == 0 else (left if t == -1 else -left)
+
+
+def fw_next_lf(regions, region, ij, forward, left, nx, n):
+    t = fw_turn(regions, region, ij, forward, left, nx, n)
+    return left if t == 0 else (-forward if t == -1 else forward)
